@@ -149,7 +149,11 @@ void harness_word32_pair(void)
 #endif
 void harness_auto(void)
 {
+#ifdef AOFF
+	size_t off = AOFF;              /* alignment fixed per obligation (one obligation per alignment 0..7) */
+#else
 	size_t off = nd_size(); __CPROVER_assume(off < 8);
+#endif
 	size_t n = nd_size(); __CPROVER_assume(n <= ALEN);
 	/* an 8-aligned block; the text occupies [off, off+n) and the object ends right after it,
 	   so a read past the text is an out-of-bounds read */
@@ -167,7 +171,7 @@ void harness_auto(void)
 	for (size_t i = 0; i < ALEN; i++) if (i < n && s != 8) s = ref_step(s, ref[i]);
 	bool want = (s != 8) && (!complete || s == 0);
 	CHECK(ok == want, "C18.auto_aligned_verdict");
-	if (n >= 16 && off == 3) REACH("auto_word_path");
+	if (n >= 16) REACH("auto_word_path");
 	free(block);
 	WITNESS_END();
 }
